@@ -79,6 +79,36 @@ def run_extra(ctx):
                 ctx.fail("crash-" + c.split("\t")[0], "%s build: %s on %s" % (prof, o, c[:200].replace("\t", " ")), [c], [o], "a value or an error")
             if o == "NOKIND":
                 ctx.count("nokind_" + c.split("\t")[0])
+    # ---- tape capacity sweep: the binary tape parser writes through raw pointers after `reserve`; whether a write is in
+    #      bounds depends on tape length vs. capacity (max(len/5, 10), doubling), so every structural event (array turning
+    #      mixed at `=`, ghost clusters, primitive-array fast path, container open/close, top-level pairs) is placed at
+    #      every token count 0..90 for element kinds of several byte widths.  Debug builds turn an out-of-capacity
+    #      set_len / write into an abort, release builds corrupt the heap (abort or disagreement in C03/C06).
+    from props import C03 as B
+    cc = []
+    for e in ("id", "i32", "quoted", "u64", "bool"):
+        for n in range(0, ctx.scale(90, 260)):
+            body = (e,) * n
+            for kinds in (("id", "equal", "open") + body + ("id", "equal", e, "close"),
+                          ("id", "equal", "open", "open", "close") + body + ("id", "equal", e, "close"),
+                          ("id", "equal", "open") + body + ("close",),
+                          ("id", "equal", "open") + ("id", "equal", e) * n + ("close",),
+                          ("id", "equal", "open") * (n % 40) + body[: n // 3] + ("close",) * (n % 40),
+                          ("id", "equal", e) * n,
+                          ("id", "equal", "open") + ("open", "close") * (n % 30) + ("id", "equal", e, "close") + ("id", "equal", e) * (n // 30)):
+                cc.append("bt.all\t" + hexs(B.enc_seq(kinds)))
+    for _ in range(ctx.scale(1500, 20000)):
+        cc.append("bt.all\t" + hexs(B.enc_seq(B.random_tokens(rng, rng.choice([9, 14, 25, 40, 60, 90])))))
+    for _ in range(ctx.scale(300, 4000)):
+        cc.append("bt.all\t" + hexs(B.gen_doc(rng)[0]))
+    ctx.count("tape_capacity_cases", len(cc))
+    for prof in ("release", "debug"):
+        impl, _ = ctx.correspond("tape_capacity_" + prof, cc, nontrivial=lambda c, i: "OK" in i, profile=prof, model=False)
+        base = len(impl) - len(cc)
+        for k, c in enumerate(cc):
+            o = impl[base + k]
+            if o in CRASH or "RUNAWAY" in o:
+                ctx.fail("crash-bt.capacity", "%s build: %s on %s" % (prof, o, c[:200].replace("\t", " ")), [c], [o], "a value or an error")
     # ---- known finding I: recursion depth = nesting depth (JSON / write_tape / deserialize `any`)
     deep = b"a={" * ctx.scale(60000, 200000)
     dc = ["writer.rt\t32,1,r\t%s" % hexs(deep + b"}" * (len(deep) // 3))]
